@@ -23,12 +23,18 @@ Proof.
     + assert (D := hot_on_data c w f X).
       destruct (on_data c w f) as [[[w1 [got m]] fr] e].
       destruct D as [(-> & X1 & GM)|([-> | ->] & X1)]; cbn [N.eqb Pos.eqb fst].
-      * apply IH. unfold WI.
-        apply hot_deliver_frame. rewrite app_nil_r.
-        assert (X2 : Hot (set_pending (consume w1 total) rest) (woid m ++ woid fr)) by (apply hot_pending, hot_consume, X1).
-        destruct got.
-        -- now apply hot_deliver_msg.
-        -- rewrite (GM eq_refl) in X2. exact X2.
+      * assert (X2 : Hot (set_pending (consume w1 total) rest) (woid m ++ woid fr)) by (apply hot_pending, hot_consume, X1).
+        set (r3 := if got then deliver_msg c (set_pending (consume w1 total) rest) m (f_clean f) (f_mpanic f)
+                   else (set_pending (consume w1 total) rest, false)).
+        assert (X3 : Hot (fst r3) (woid fr)).
+        { unfold r3. destruct got; [now apply hot_deliver_msg|]. cbn [fst]. rewrite (GM eq_refl) in X2. exact X2. }
+        destruct r3 as [w3 esc1]. cbn [fst] in X3.
+        destruct esc1; [cbn [fst]; now apply hot_escape|].
+        assert (X4 : Hot (fst (deliver_frame c w3 fr (f_fpanic f))) []).
+        { apply hot_deliver_frame. now rewrite app_nil_r. }
+        destruct (deliver_frame c w3 fr (f_fpanic f)) as [w4 esc2]. cbn [fst] in X4.
+        destruct esc2; [cbn [fst]; now apply hot_recover|].
+        now apply IH.
       * exact X1.
       * now apply hot_send_frame.
     + set (r := if (0 <? f_plen f)%N then let '(w', id) := w_malloc w in (w', Some (id, f_plen f)) else (w, None)).
@@ -36,8 +42,11 @@ Proof.
       { unfold r. destruct (0 <? f_plen f)%N; [|exact X].
         destruct (w_malloc w) as [w' id] eqn:E. destruct (hot_malloc _ _ _ _ E X) as (X' & _). exact X'. }
       destruct r as [w1 pm]. cbn [fst snd] in X1.
-      apply IH. unfold WI. apply hot_deliver_ctl. rewrite app_nil_r.
-      apply hot_pending, hot_consume, X1.
+      assert (X3 : Hot (fst (deliver_ctl c (set_pending (consume w1 total) rest) pm (f_reply f) (f_mpanic f))) []).
+      { apply hot_deliver_ctl. rewrite app_nil_r. apply hot_pending, hot_consume, X1. }
+      destruct (deliver_ctl c (set_pending (consume w1 total) rest) pm (f_reply f) (f_mpanic f)) as [w3 esc]. cbn [fst] in X3.
+      destruct esc; [cbn [fst]; now apply hot_recover|].
+      now apply IH.
 Qed.
 
 Lemma WI_parse c w n : WI w -> WI (fst (w_parse c w n)).
